@@ -149,6 +149,18 @@ func C20(tier string) int {
 	addQ(`count(from reports where anyOf(roles) = "a" sort by f, b desc limit 1) = 0`, []string{"reports", "roles", "f", "b"})
 	addQ(`count(from reports where count(from reports where true sort by nn) > 0 sort by id, s) > 0`, []string{"reports", "nn", "s"})
 	addQ(`not isEmpty(from reports where i > 4 sort by id, f)`, []string{"reports", "i", "f"})
+	// set functions and integer symbols met by NON-integer operands (the typer wraps them in conversion nodes)
+	addQ(`count(roles) > 1.5`, []string{"roles"})
+	addQ(`count(roles) in [0.5, 2]`, []string{"roles"})
+	addQ(`count(roles) between 0.5 and 3`, []string{"roles"})
+	addQ(`count(roles) not between 0.5 and 3.5 or b`, []string{"roles", "b"})
+	addQ(`count(reports.i) >= 0.5`, []string{"reports.i"})
+	addQ(`count(from reports where s = "a") < 2.5`, []string{"reports", "s"})
+	addQ(`count(from reports where count(roles) > 0.5) != 1.5`, []string{"reports", "roles"})
+	addQ(`i > 1.5 and nn < 4.5`, []string{"i", "nn"})
+	addQ(`i in [4.5, 5] or nn between 3.5 and 4.5`, []string{"i", "nn"})
+	addQ(`anyOf(reports.i) > 4.5`, []string{"reports.i"})
+	addQ(`allOf(reports.nn) <= 4.5`, []string{"reports.nn"})
 	// elements of a map symbol, one and several levels below it, in every position a symbol can take
 	for _, el := range []string{"tags.k", "tags.k.sub", "tags.k.sub.leaf", "tags.tags", "tags.id.s"} {
 		addQ(el+` = "v"`, []string{el})
